@@ -154,6 +154,22 @@ def structure(rep, F, tag):
     R.guard(body)
 
 
+def identity_init(rep, F, tag):
+    R = rep.rule('C10.R5', 'equilibration disabled => data untouched')
+
+    def body():
+        f = F.one(name='new', adt='DefaultEquilibrationData')
+        r = canon(f.sym_local(0))
+        m = re.fullmatch(r'DefaultEquilibrationData::DefaultEquilibrationData\((.*)\)', r)
+        args = split_args('x(' + m.group(1) + ')') if m else []
+        ok = len(args) == 5 and all(re.fullmatch(r'from_elem\(one\(\), arg\d\)', a) for a in args[:4]) and args[4] == 'one()'
+        R.check(ok, 'identity-init' + tag,
+                'DefaultEquilibrationData::new builds %s: with equilibration disabled d, dinv, e, einv, c keep their initial values, which must be the '
+                'identity scaling (ones) - a zero dinv / einv makes every reported residual vanish and unscale return s = 0' % r[:200], f.loc())
+
+    R.guard(body)
+
+
 def rectification(rep, F, tag):
     R = rep.rule('C10.R4', 'rectify_equilibration: uniform scaling inside every non-separable cone (exhaustive over impl Cone), composite wiring, re-application before the inverses')
 
@@ -242,6 +258,7 @@ def run(ctx, rep, tier):
         tag = '' if cfg == 'default' else '[%s]' % cfg
         structure(rep, F, tag)
         rectification(rep, F, tag)
+        identity_init(rep, F, tag)
     from . import units_rules
     units_rules.c10(ctx, rep)
     from . import primitives
